@@ -11,6 +11,10 @@ SHARED_LINES = ["shared_lines", "oneline_first"]  # C35: one source line = entry
 # deterministic, but with unannotated / Union parameters, a class hierarchy and a pragma-excluded branch; used by C16 only
 # (kept out of ALL so that the workloads of the other whole-pipeline checks do not change)
 EXTRA = ["untyped"]
+# used by the generated-file checks C18/C19/C24 only: oracles on module-level state at statements that bind nothing, and
+# values whose class is nested in another class
+GENFILES_EXTRA = ["counter", "nested"]
+STATEFUL_MODULE = ["counter"]  # module-level variables changed by calls: what a test observes first depends on earlier executions
 
 
 def copy_to(dest, names=None):
